@@ -30,13 +30,16 @@ RULE = ("(a) one design per operand width pair (wa, wb) <= 4 (quick) / 6 (thorou
         "bits, exhaustive values; (b) seeded random API-built designs (max width 8; every fifth up to 33 bits "
         "without *; registers with non-zero reset values, memories with initial contents, ROMs) x initial state x "
         "input sequence x merge_io_vectors x update_working_block: a case = (design, config), non-trivial when at "
-        "least half of the Outputs toggled or the design has state; plus 14 directed designs in both tiers: 2-3 "
+        "least half of the Outputs toggled or the design has state; plus 16 directed designs in both tiers: 2-3 "
         "memories and a ROM (pairwise different contents via memory_value_map) read through ONE address wire object "
         "(Input / intermediate wire / Register) that is also address and data of write ports; registers with reset "
         "None / explicit 0 / non-zero side by side; ROMs with pad_with_zeros and partial list / sparse-dict romdata "
         "read at every address (a third of the random designs also draw such ROMs); write ports with every kind of "
         "enable (Const 0, Const 1, plain, constants reaching the port through logic, dynamic) read back over a "
         "colliding address history; several memories and a ROM that share one NAME with different initial contents; "
+        "write-only memories (log buffers); on the synthesized block the testbench written against the original is run "
+        "under Simulation, FastSimulation and CompiledSimulation (memory_value_map and inspect_mem by ORIGINAL MemBlock, "
+        "mid-run and final memory contents per original memory, Sem's final memory as oracle); "
         "each design is additionally "
         "run with default_value in {1, all-ones of the smallest register}; "
         "every cycle compares Outputs of original / "
@@ -477,7 +480,19 @@ def orig_memories(block):
     return list(seen.values())
 
 
-def run_original(d, regmap, memmap, inputs, default_value=0):
+def mem_table(view, m, default_value=0):
+    """contents of memory m as seen through an inspect_mem view (dict or DllMemInspector), every address"""
+    if isinstance(view, dict):
+        return [view.get(a, default_value) for a in range(1 << m.addrwidth)]
+    return [view[a] for a in range(1 << m.addrwidth)]
+
+
+def observe_mems(sim, d, key=lambda m: m, default_value=0):
+    """inspect_mem(<the ORIGINAL MemBlock>) for every memory of the design"""
+    return [mem_table(sim.inspect_mem(key(m)), m, default_value) for m in d.mems]
+
+
+def run_original(d, regmap, memmap, inputs, default_value=0, record_mems=False):
     block = d.block
     sim = pyrtl.Simulation(tracer=pyrtl.SimulationTrace(block=block), register_value_map=dict(regmap),
                            memory_value_map={m: dict(c) for m, c in memmap.items()}, block=block,
@@ -485,10 +500,16 @@ def run_original(d, regmap, memmap, inputs, default_value=0):
     trace = []
     allw = sorted(block.wirevector_set, key=lambda w: w.name)
     full = []
-    for stp in inputs:
+    obs = {}
+    for c, stp in enumerate(inputs):
         sim.step(dict(stp))
         trace.append([sim.inspect(o.name) for o in d.outputs])
         full.append({w.name: sim.value[w] for w in allw})
+        if c == len(inputs) // 2:
+            obs['mid'] = observe_mems(sim, d, default_value=default_value)
+    obs['final'] = observe_mems(sim, d, default_value=default_value)
+    if record_mems:
+        d._mem_obs = obs
     return trace, full
 
 
@@ -633,6 +654,19 @@ def check_maps(ctx, d, post, merge, rep):
             'PostSynthBlock.mem_map is not keyed by the original MemBlock objects (%s by name)'
             % ('same memories' if names_ok else 'different memories'))
         ok = False
+    # a synthesized memory keeps the id of the memory it stands for (what inspect_mem / FastSimulation key on),
+    # and the nets of the synthesized block carry that id
+    for m in mems:
+        pm = post.mem_map.get(m)
+        if pm is not None and pm.id != m.id:
+            bad('synthesize:mem_map-id', 'mem_map[%s] has id %r, the original memory has id %r' % (m.name, pm.id, m.id))
+            ok = False
+    for n in post.logic_subset('m@'):
+        if n.op_param[0] != n.op_param[1].id:
+            bad('synthesize:mem_map-id', 'a memory net of the synthesized block carries memid %r for memory id %r' % (
+                n.op_param[0], n.op_param[1].id))
+            ok = False
+            break
     post_mems = {id(n.op_param[1]) for n in post.logic_subset('m@')}
     if {id(v) for v in post.mem_map.values()} != post_mems:
         bad('synthesize:mem_map-values', 'mem_map values are not the memories of the synthesized block')
@@ -676,12 +710,14 @@ def py_shape_ok(post, merge):
     return True, None
 
 
-N_DIRECTED = 14      # 0-5 shared address wire; 6-7 reset None / 0 / non-zero; 8-9 partial ROMs with pad_with_zeros;
-                     # 10-11 write ports with constant enables; 12-13 memories sharing one name
+N_DIRECTED = 16      # 0-5 shared address wire; 6-7 reset None / 0 / non-zero; 8-9 partial ROMs with pad_with_zeros;
+                     # 10-11 write ports with constant enables; 12-13 memories sharing one name;
+                     # 14-15 write-only memories (log buffers observed through inspect_mem only)
 
 
 DIRECTED_KIND = ['directed-shared-address'] * 3 + ['directed-reset-values', 'directed-partial-roms',
-                                                  'directed-constant-write-enables', 'directed-same-name-memories']
+                                                  'directed-constant-write-enables', 'directed-same-name-memories',
+                                                  'directed-write-only-memories']
 
 
 def build_directed_enables(ctx, k):
@@ -725,6 +761,47 @@ def build_directed_enables(ctx, k):
     n = 10 if ctx.tier == 'quick' else 20
     inputs = [{'wa': rng.randrange(4), 'ra': rng.randrange(4), 'din': rng.randrange(1, 16), 'en': rng.randrange(2)}
               for _ in range(n)]
+    return d, {}, memmap, inputs
+
+
+def build_directed_write_only(ctx, k):
+    """memories that the design only WRITES (log / trace buffers): observable solely through the final and
+    mid-run memory contents (inspect_mem by the original MemBlock); multi-bit and 1-bit addresses and data"""
+    rng = ctx.sub_rng('directed-write-only', k)
+    pyrtl.reset_working_block()
+    d = gen_designs.Design(pyrtl.working_block())
+    a = pyrtl.Input(3, 'a')
+    b = pyrtl.Input(2, 'b')
+    en = pyrtl.Input(1, 'en')
+    d.inputs = [a, b, en]
+    wptr = pyrtl.Register(3, 'wptr', reset_value=5 if k % 2 else None)
+    wptr.next <<= (wptr + 1)[:3]
+    d.regs.append(wptr)
+    log = pyrtl.MemBlock(bitwidth=5, addrwidth=3, name='log', max_read_ports=None, max_write_ports=None,
+                         asynchronous=True)
+    log[wptr] <<= pyrtl.MemBlock.EnabledWrite(pyrtl.concat(a, b), en)
+    flags = pyrtl.MemBlock(bitwidth=1, addrwidth=2, name='flags', max_read_ports=None, max_write_ports=None,
+                           asynchronous=True)
+    flags[b] <<= a[0]
+    wide = pyrtl.MemBlock(bitwidth=4, addrwidth=1, name='wide1', max_read_ports=None, max_write_ports=None,
+                          asynchronous=True)
+    wide[en] <<= pyrtl.MemBlock.EnabledWrite((a + b)[:4], a[2])
+    d.mems = [log, flags, wide]
+    if k % 2:
+        rw = pyrtl.MemBlock(bitwidth=3, addrwidth=2, name='rw', max_read_ports=None, max_write_ports=None,
+                            asynchronous=True)
+        rw[b] <<= pyrtl.MemBlock.EnabledWrite(a, en)
+        o2 = pyrtl.Output(3, 'o_rw')
+        o2 <<= rw[wptr[:2]]
+        d.mems.append(rw)
+        d.outputs.append(o2)
+    o = pyrtl.Output(3, 'o_ptr')
+    o <<= wptr ^ a
+    d.outputs.append(o)
+    d.ops = ['memwr'] * len(d.mems) + ['+', 'concat', '^']
+    memmap = {log: {1: 9, 6: 30}} if k % 2 else {flags: {0: 1, 3: 1}, wide: {1: 7}}
+    n = 10 if ctx.tier == 'quick' else 20
+    inputs = [{'a': rng.randrange(8), 'b': rng.randrange(4), 'en': rng.randrange(2)} for _ in range(n)]
     return d, {}, memmap, inputs
 
 
@@ -840,6 +917,8 @@ def build_directed(ctx, k):
         return build_directed_enables(ctx, k)
     if k in (12, 13):
         return build_directed_same_name(ctx, k)
+    if k in (14, 15):
+        return build_directed_write_only(ctx, k)
     rng = ctx.sub_rng('directed', k)
     pyrtl.reset_working_block()
     d = gen_designs.Design(pyrtl.working_block())
@@ -926,7 +1005,7 @@ def part_b(ctx, only=None):
     model_exprs, model_cases = [], []
     for i in (only if only is not None else [-(k + 1) for k in range(N_DIRECTED)] + list(range(n))):
         d, regmap, memmap, inputs = build_case(ctx, i)
-        ctx.count('design_kind', 'random' if i >= 0 else DIRECTED_KIND[min((-i - 1) // 2, 6)])
+        ctx.count('design_kind', 'random' if i >= 0 else DIRECTED_KIND[min((-i - 1) // 2, 7)])
         block = d.block
         outnames = [o.name for o in d.outputs]
         base_rep = {'part': 'b', 'seed': ctx.seed, 'design': i, 'tier': ctx.tier,
@@ -935,7 +1014,7 @@ def part_b(ctx, only=None):
                     'resets': {r.name: r.reset_value for r in d.regs},
                     'memmap': {m.name: c for m, c in memmap.items()}}
         try:
-            t_orig, full_orig = run_original(d, regmap, memmap, inputs)
+            t_orig, full_orig = run_original(d, regmap, memmap, inputs, record_mems=True)
         except pyrtl.PyrtlError as e:
             ctx.spec_violation('api-built-design-rejected', 'Simulation rejected an API-built design: %s' % e, base_rep)
             continue
@@ -943,8 +1022,10 @@ def part_b(ctx, only=None):
         names = dump.names()
         out_cols = [names.index(nm) for nm in outnames]
         orig_expr = '%s 0 %s %s %s' % (dump.coq(), dump.regmap(regmap), dump.memmap(memmap), dump.inputs(inputs))
-        spec_exprs.append('spec_case %s []' % orig_expr)
-        spec_cases.append(dict(i=i, out_cols=out_cols, t_orig=t_orig, outnames=outnames, rep=base_rep))
+        probes = [(m.id, a_) for m in d.mems for a_ in range(1 << m.addrwidth)]
+        spec_exprs.append('spec_case %s %s' % (orig_expr, nlx.pairs(probes)))
+        spec_cases.append(dict(i=i, out_cols=out_cols, t_orig=t_orig, outnames=outnames, rep=base_rep,
+                               mem_final=[v for tab in d._mem_obs['final'] for v in tab]))
         # the model is asked for EVERY wire of the original design (re-assembled from the model's bits)
         model_exprs.append('synth_case %s %s' % (orig_expr, nlx.zlist([dump.wid[w] for w in dump.wires])))
         model_cases.append(dict(i=i, t_orig=t_orig, outnames=names, rep=base_rep, t_post=None))
@@ -1022,6 +1103,8 @@ def part_b(ctx, only=None):
                 # every wire of the real synthesized block, re-assembled from its 1-bit wires
                 model_cases[-1]['t_post'] = [[sum(b << k for k, b in enumerate(bm[nm])) for nm in names]
                                              for bm in bits]
+            if t_post == t_orig:
+                channels(ctx, d, post, merge, uwb, regmap, memmap, inputs, t_orig, outnames, rep, directed=(i < 0))
             if t_post != t_orig:
                 classify_mismatch(ctx, d, block, merge, regmap, memmap, inputs, t_orig, t_post, outnames, rep)
             elif merge != uwb:
@@ -1060,6 +1143,9 @@ def part_b(ctx, only=None):
     for c, res in zip(spec_cases, spec_results):
         if res[0][0] != 1:
             ctx.model_mismatch('wfb is false on an API-built design', c['rep'])
+        if res[1] != c['mem_final']:
+            ctx.spec_violation('sim-vs-spec:memory', 'final memory contents of the ORIGINAL design under Simulation disagree '
+                               'with Sem on design %d: %s vs %s' % (c['i'], c['mem_final'], res[1]), c['rep'])
         t_spec = [[row[k] for k in c['out_cols']] for row in res[2:]]
         if t_spec != c['t_orig']:
             ctx.spec_violation('sim-vs-spec', 'Simulation of the ORIGINAL design disagrees with Sem on design %d: %s' % (
@@ -1095,6 +1181,78 @@ def part_b(ctx, only=None):
                                        c['i'], c['merge'], c['badnet']), c['rep'])
             if ok != c['py']:
                 ctx.model_mismatch('Coq shapeb and its Python mirror disagree on design %d' % c['i'], c['rep'])
+
+
+COMPILED_MAX_NETS = 1200     # gcc time grows with the synthesized block; larger blocks use Simulation + FastSimulation
+
+
+def testbench_on(simclass, d, post, merge, regmap, memmap, inputs, memkey=lambda m: m):
+    """the ORIGINAL testbench on the synthesized block under any simulator: inputs by (bit) name,
+    memory_value_map keyed by memkey(original MemBlock) -- the original object itself unless stated --,
+    register_value_map through reg_map, Outputs by name, inspect_mem(memkey(original)) mid-run and at the end"""
+    rmap = {}
+    for r, v in regmap.items():
+        for i, rb in enumerate(post.reg_map[r]):
+            rmap[rb] = (v >> i) & 1
+    sim = simclass(register_value_map=rmap, memory_value_map={memkey(m): dict(c) for m, c in memmap.items()},
+                   block=post, tracer=pyrtl.SimulationTrace(block=post))
+    trace, obs = [], {}
+    for c, stp in enumerate(inputs):
+        sim.step(step_inputs(post, d.inputs, stp, merge))
+        trace.append([read_output(sim, post, o, merge) for o in d.outputs])
+        if c == len(inputs) // 2:
+            obs['mid'] = observe_mems(sim, d, memkey)
+    obs['final'] = observe_mems(sim, d, memkey)
+    return trace, obs
+
+
+def channels(ctx, d, post, merge, uwb, regmap, memmap, inputs, t_orig, outnames, rep, directed):
+    """every simulator and observation channel a testbench written against the original could use"""
+    want = d._mem_obs
+    sims = [('Simulation', pyrtl.Simulation)] if d.mems else []     # (Outputs under Simulation were compared already)
+    if directed or merge != uwb:
+        sims.append(('FastSimulation', pyrtl.FastSimulation))
+    if len(post.logic) <= COMPILED_MAX_NETS and (merge and not uwb or (directed and not merge and uwb)):
+        sims.append(('CompiledSimulation', pyrtl.CompiledSimulation))
+    for nm, cls in sims:
+        ctx.count('simulators_on_synthesized', nm)
+        rep2 = dict(rep, simulator=nm)
+        memkey = (lambda m: m)
+        try:
+            t, obs = testbench_on(cls, d, post, merge, regmap, memmap, inputs)
+        except Exception as e:
+            if cls is pyrtl.CompiledSimulation and d.mems and isinstance(e, (pyrtl.PyrtlError, KeyError)):
+                ctx.spec_violation('synthesize:compiledsim-original-memblock-rejected',
+                                   'CompiledSimulation on the synthesized block rejects the testbench written against the '
+                                   'original (memory_value_map / inspect_mem by original MemBlock): %s: %s' % (
+                                       type(e).__name__, str(e)[:160]), rep2)
+                memkey = (lambda m: post.mem_map[m])      # keep the channel alive through the translated key
+                try:
+                    t, obs = testbench_on(cls, d, post, merge, regmap, memmap, inputs, memkey)
+                except Exception as e2:
+                    ctx.spec_violation('synthesize:testbench-raises:%s' % nm, '%s testbench raised %s on the synthesized '
+                                       'block even with translated memory keys: %s' % (nm, type(e2).__name__, str(e2)[:200]), rep2)
+                    continue
+            else:
+                sig = 'synthesize:inspect_mem-by-original' if isinstance(e, KeyError) and d.mems else \
+                    'synthesize:testbench-raises:%s' % nm
+                ctx.spec_violation(sig, 'the testbench written against the original (memory_value_map and inspect_mem by '
+                                   'original MemBlock) raised %s under %s on the synthesized block: %s' % (
+                                       type(e).__name__, nm, str(e)[:200]), rep2)
+                continue
+        if t != t_orig:
+            ctx.spec_violation('synthesize:trace-mismatch:%s' % nm,
+                               'Output trace under %s on the synthesized block differs from the original design (%s)' % (
+                                   nm, first_diff(t_orig, t, outnames)), rep2)
+            continue
+        for when in ('mid', 'final'):
+            if obs.get(when) != want.get(when):
+                j = next(k for k, (x, y) in enumerate(zip(want[when], obs[when])) if x != y)
+                ctx.spec_violation('synthesize:memory-contents:%s' % nm,
+                                   'inspect_mem(%s) %s under %s on the synthesized block: %s, on the original design: %s' % (
+                                       d.mems[j].name, 'mid-run' if when == 'mid' else 'after the run', nm,
+                                       obs[when][j], want[when][j]), rep2)
+                break
 
 
 def default_value_runs(ctx, d, post, merge, regmap, memmap, inputs, outnames, rep):
